@@ -906,7 +906,7 @@ func (e *Enc) assumeTypeInv(v Val, guard Term) {
 		}
 	case *types.Slice:
 		// lengths are Go ints: 0 <= len <= 2^63-1
-		e.sc.Assert(implies(guard, and("(>= (sl_len "+v.T+") 0)", "(<= (sl_len "+v.T+") 9223372036854775807)", "(>= (sl_off "+v.T+") 0)", implies("(= (sl_ref "+v.T+") 0)", "(= (sl_len "+v.T+") 0)"))))
+		e.sc.Assert(implies(guard, and("(>= (sl_len "+v.T+") 0)", "(<= (sl_len "+v.T+") 9223372036854775807)", "(>= (sl_off "+v.T+") 0)", implies("(= (sl_ref "+v.T+") 0)", and("(= (sl_len "+v.T+") 0)", "(= (sl_off "+v.T+") 0)")))))
 	}
 }
 
